@@ -247,6 +247,32 @@ Definition take_line (lbl : option str) (fs : list (msg -> option msg)) (m : msg
   | Some m' => match truncate (serialize m') with Ok l => Some l | Raise _ => None end
   end.
 
+(* ---- plugins/Filter: Filter.outFilter, the per-channel output filter ---- *)
+(* ircmsgs.isAction / unAction on the canonical form "\x01ACTION " text "\x01" (text without leading
+   white space; other CTCP-looking payloads are outside the domain the harness compares) *)
+Definition un_action (s : str) : option str :=
+  if startswith gen.T06.ACTION_PRE s && endswith1 SOH s
+     && Nat.ltb (length gen.T06.ACTION_PRE) (length s)
+  then Some (removelast (skipn (length gen.T06.ACTION_PRE) s))
+  else None.
+
+Definition apply_filters (fs : list (str -> str)) (s : str) : str := fold_left (fun acc f => f acc) fs s.
+
+(* active = msg.channel in self.outFilters; fs = the filter commands installed there, as text -> text.
+   The message is rebuilt through the msg= branch: nothing is checked again. *)
+Definition filter_outFilter (active : bool) (fs : list (str -> str)) (m : msg) : msg :=
+  if (seq_eqb (m_command m) gen.T06.CMD_PRIVMSG || seq_eqb (m_command m) gen.T06.CMD_NOTICE) && active then
+    match m_args m with
+    | target :: payload :: _ =>
+        match un_action payload with
+        | Some t =>
+            match action target (apply_filters fs t) [] (Some m) with Ok m' => m' | Raise _ => m end
+        | None => ctor_from [] [] [target; apply_filters fs payload] m
+        end
+    | _ => m                       (* IndexError: outFilter is firewalled and returns msg *)
+    end
+  else m.
+
 (* ---- what is measured on the wire ---- *)
 (* the line without its "@tags " part (the 512 limit excludes tags) *)
 Definition untagged (l : str) : str :=
@@ -283,7 +309,8 @@ Definition vLine (l : str) : value :=
    3 l                       -> result of _truncateMsg on the line l, with measurements
    4 (cmd rcpt s prefix msg) -> maker with msg= (unchecked branch), serialised
    5 ((lbl) msg)             -> label + truncate of a constructor-built message
-   6 s                       -> repr s *)
+   6 s                       -> repr s
+   7 (active k msg)          -> Filter.outFilter with k times the 'reverse' filter installed, serialised *)
 Definition run (v : value) : value :=
   let p := nth_v 1 v in
   match gN (nth_v 0 v) with
@@ -300,5 +327,7 @@ Definition run (v : value) : value :=
          | None => L []
          end
   | 6 => vS (repr (gS p))
+  | 7 => vLine (serialize (filter_outFilter (gB (nth_v 0 p)) (repeat (@rev N) (N.to_nat (gN (nth_v 1 p))))
+                                            (gMsg (nth_v 2 p))))
   | _ => L []
   end.
